@@ -413,7 +413,10 @@ def _expand_ifexp(block: List[ast.stmt]) -> List[ast.stmt]:
         for b in _blocks_of(st):
             b[:] = _expand_ifexp(b)
         if isinstance(st, ast.Assign) and isinstance(st.value, ast.IfExp) and len(st.targets) == 1 \
-                and isinstance(st.targets[0], ast.Name):
+                and (isinstance(st.targets[0], ast.Name) or
+                     (isinstance(st.targets[0], (ast.Subscript, ast.Attribute)) and _base_name(st.targets[0])
+                      and _is_pure_expr(st.targets[0]))):
+            # (an element or attribute store: the value is evaluated before the target either way)
             ie = st.value
             a = _fix(ast.Assign(targets=[copy.deepcopy(st.targets[0])], value=ie.body), ie.body)
             b = _fix(ast.Assign(targets=[copy.deepcopy(st.targets[0])], value=ie.orelse), ie.orelse)
@@ -426,8 +429,10 @@ def _expand_ifexp(block: List[ast.stmt]) -> List[ast.stmt]:
             out.append(_fix(ast.If(test=ie.test, body=_expand_ifexp([a]), orelse=_expand_ifexp([b])), st))
         elif isinstance(st, ast.Assign) and len(st.targets) == 1 and isinstance(st.targets[0], ast.Tuple) \
                 and isinstance(st.value, ast.Tuple) and len(st.value.elts) == len(st.targets[0].elts) \
-                and all(isinstance(t, (ast.Name, ast.Subscript, ast.Attribute)) and _base_name(t) for t in st.targets[0].elts) \
-                and all(_is_pure_expr(t) for t in st.targets[0].elts):
+                and all((isinstance(t, (ast.Name, ast.Subscript, ast.Attribute)) and _base_name(t)) or
+                        (isinstance(t, ast.Tuple) and all(isinstance(x, ast.Name) for x in t.elts)) for t in st.targets[0].elts) \
+                and all(_is_pure_expr(t) for t in st.targets[0].elts if not isinstance(t, ast.Tuple)) \
+                and not any(isinstance(t, ast.Tuple) for t in st.targets[0].elts):
             tg = [_base_name(t) for t in st.targets[0].elts]
             # independent unless a later value (or a later target's index) reads an earlier target
             ok = True
@@ -661,6 +666,21 @@ def in_loop_leak(body: List[ast.stmt]) -> bool:
 # N4: comparison direction ; N5: accumulation
 # ----------------------------------------------------------------------------------------------
 
+def _total_test(e: ast.AST) -> bool:
+    """an expression that always evaluates (no subscript, attribute, division, call other than len, no conditional part)"""
+    for n in ast.walk(e):
+        if isinstance(n, ast.Call):
+            if not (isinstance(n.func, ast.Name) and n.func.id == 'len' and len(n.args) == 1 and isinstance(n.args[0], ast.Name)):
+                return False
+        elif isinstance(n, ast.BinOp):
+            if not isinstance(n.op, (ast.Add, ast.Sub, ast.Mult)):
+                return False
+        elif not isinstance(n, (ast.Compare, ast.Name, ast.Constant, ast.UnaryOp, ast.USub, ast.UAdd, ast.Not, ast.cmpop, ast.operator,
+                                ast.expr_context, ast.BoolOp, ast.And, ast.Or)):
+            return False
+    return True
+
+
 class _CmpDir(ast.NodeTransformer):
     def visit_UnaryOp(self, node: ast.UnaryOp):
         self.generic_visit(node)
@@ -695,6 +715,31 @@ class _CmpDir(ast.NodeTransformer):
         if len(node.ops) == 1 and isinstance(node.ops[0], (ast.Gt, ast.GtE)):
             op = ast.Lt() if isinstance(node.ops[0], ast.Gt) else ast.LtE()
             return _fix(ast.Compare(left=node.comparators[0], ops=[op], comparators=[node.left]), node)
+        if len(node.ops) > 1 and all(_is_pure_expr(x) for x in [node.left] + node.comparators):
+            # `a < b < c` is `a < b and b < c` (the middle operands are side-effect free: evaluating them twice is the same)
+            parts = []
+            left = node.left
+            for op, right in zip(node.ops, node.comparators):
+                parts.append(self.visit_Compare(_fix(ast.Compare(left=copy.deepcopy(left), ops=[op], comparators=[copy.deepcopy(right)]), node)))
+                left = right
+            return self.visit_BoolOp(_fix(ast.BoolOp(op=ast.And(), values=parts), node), visited=True)
+        return node
+
+    def visit_BoolOp(self, node: ast.BoolOp, visited: bool = False):
+        if not visited:
+            self.generic_visit(node)
+        # operands that cannot raise and have no effect (comparisons of names, constants, lengths and their sums) commute
+        # under and / or: canonical order.  An operand with a subscript, a division or a call stays where it is - it may be
+        # guarded by what stands before it.
+        flat = []
+        for v in node.values:
+            if isinstance(v, ast.BoolOp) and type(v.op) is type(node.op):
+                flat.extend(v.values)
+            else:
+                flat.append(v)
+        node.values = flat
+        if all(_total_test(v) for v in node.values):
+            node.values = sorted(node.values, key=ast.unparse)
         return node
 
 
@@ -1550,11 +1595,60 @@ def _branch_motion(block: List[ast.stmt]) -> List[ast.stmt]:
                 for b_ in arms:
                     if not b_:
                         b_.append(_fix(ast.Pass(), st))
+                _hoist_in_tail(st)
                 out.append(st)
             out.extend(post)
         else:
             out.append(st)
     return out
+
+
+def _hoist_in_tail(node: ast.If):
+    """What is common to all arms of the *rest* of a chain - `elif B: X; Y else: X; Z` - moves in front of (behind) that
+    rest, inside the else of the arm before it: `else: X; if B: Y else: Z`.  (The same statement written once per
+    remaining case, or once for all of them, is one program.)"""
+    if not (len(node.orelse) == 1 and isinstance(node.orelse[0], ast.If) and node.orelse[0].orelse):
+        return
+    inner = node.orelse[0]
+    _hoist_in_tail(inner)
+    if not (len(node.orelse) == 1 and node.orelse[0] is inner):
+        return
+    test_reads = {n.id for n in ast.walk(inner.test) if isinstance(n, ast.Name)}
+    arms = [inner.body]
+    cur = inner
+    while len(cur.orelse) == 1 and isinstance(cur.orelse[0], ast.If) and cur.orelse[0].orelse:
+        cur = cur.orelse[0]
+        test_reads |= {n.id for n in ast.walk(cur.test) if isinstance(n, ast.Name)}
+        arms.append(cur.body)
+    if len(cur.orelse) == 1 and isinstance(cur.orelse[0], ast.If):
+        return
+    arms.append(cur.orelse)
+    pre: List[ast.stmt] = []
+    post: List[ast.stmt] = []
+
+    def plain(st_) -> bool:
+        # only a plain definition `name = <side-effect free value>` moves: an update of a variable (a cursor that
+        # advances, an accumulator) is part of the case it stands in
+        return isinstance(st_, ast.Assign) and len(st_.targets) == 1 and isinstance(st_.targets[0], ast.Name) \
+            and _is_pure_expr(st_.value) and st_.targets[0].id not in _names_loaded(st_.value)
+    while all(len(a) > 1 for a in arms):
+        pos = _find_movable(arms, False, test_reads)
+        if pos is None or not plain(arms[0][pos[0]]):
+            break
+        pre.append(arms[0][pos[0]])
+        for b_, p_ in zip(arms, pos):
+            del b_[p_]
+        _invalidate()
+    while all(len(a) > 1 for a in arms):
+        pos = _find_movable(arms, True, set())
+        if pos is None or not plain(arms[0][pos[0]]):
+            break
+        post.insert(0, arms[0][pos[0]])
+        for b_, p_ in zip(arms, pos):
+            del b_[p_]
+        _invalidate()
+    if pre or post:
+        node.orelse[:] = pre + [inner] + post
 
 
 # ----------------------------------------------------------------------------------------------
@@ -1601,6 +1695,252 @@ def _commute(a: ast.stmt, b: ast.stmt) -> bool:
                 (_names_loaded(a.value) | _names_loaded(a.targets[0].slice) | _names_loaded(b.targets[0].slice)):
             return True
     return not (wa & (rb | wb)) and not (wb & ra)
+
+
+def _split_chained_assign(fn: ast.FunctionDef) -> bool:
+    """`a = b = E` with E side-effect free and the targets plain names is `a = E; b = E`."""
+    changed = False
+
+    def visit(block):
+        nonlocal changed
+        k = 0
+        while k < len(block):
+            st = block[k]
+            if isinstance(st, ast.Assign) and len(st.targets) > 1 and all(isinstance(t, ast.Name) for t in st.targets) \
+                    and _is_pure_expr(st.value) and not ({t.id for t in st.targets} & _names_loaded(st.value)):
+                block[k:k + 1] = [_fix(ast.Assign(targets=[t], value=copy.deepcopy(st.value)), st) for t in st.targets]
+                changed = True
+                k += len(st.targets)
+                continue
+            if not isinstance(st, (ast.FunctionDef, ast.ClassDef)):
+                for b in _blocks_of(st):
+                    visit(b)
+            k += 1
+    visit(fn.body)
+    if changed:
+        _invalidate()
+    return changed
+
+
+def _sink_update_into_defs(fn: ast.FunctionDef) -> bool:
+    """N23: `x = A` ... `if c: x = B` ... `x = F[x]` in one block, F a side-effect free expression that reads x once and
+    whose other operands nothing in between modifies, the statements in between touching x only in those definitions:
+    the update is applied where the value is defined - `x = F[A]` ... `if c: x = F[B]`.  (A value that is scaled where
+    it is produced, or once after all the cases, is the same value.)"""
+    changed = False
+
+    def subst(F: ast.expr, x: str, E: ast.expr) -> ast.expr:
+        class T(ast.NodeTransformer):
+            def visit_Name(self, node):
+                if node.id == x and isinstance(node.ctx, ast.Load):
+                    return copy.deepcopy(E)
+                return node
+        return T().visit(copy.deepcopy(F))
+
+    def visit(block):
+        nonlocal changed
+        for st in block:
+            if not isinstance(st, (ast.FunctionDef, ast.ClassDef)):
+                for b in _blocks_of(st):
+                    visit(b)
+        k = 0
+        while k < len(block):
+            st = block[k]
+            if isinstance(st, ast.Assign) and len(st.targets) == 1 and isinstance(st.targets[0], ast.Name) \
+                    and not isinstance(st.value, ast.Name) and _is_pure_expr(st.value) \
+                    and _count_loads(st.value, st.targets[0].id) == 1:
+                x, F = st.targets[0].id, st.value
+                others = _names_loaded(F) - {x}
+                defs = []
+                q = k - 1
+                ok_ = True
+                found_plain = False
+                while q >= 0:
+                    t = block[q]
+                    if _plain_def(t, x) and x not in _names_loaded(t.value):
+                        defs.append(t)
+                        found_plain = True
+                        break
+                    if isinstance(t, ast.If) and not t.orelse and len(t.body) == 1 and _plain_def(t.body[0], x) \
+                            and x not in _names_loaded(t.body[0].value) and x not in _names_loaded(t.test):
+                        defs.append(t.body[0])
+                    elif any(isinstance(n, ast.Name) and n.id == x for n in ast.walk(t)):
+                        ok_ = False
+                        break
+                    if mutated_names(t) & others:
+                        ok_ = False
+                        break
+                    q -= 1
+                if ok_ and found_plain and len(defs) >= 2:
+                    for d in defs:
+                        d.value = subst(F, x, d.value)
+                    del block[k]
+                    changed = True
+                    continue
+            k += 1
+    visit(fn.body)
+    if changed:
+        ast.fix_missing_locations(fn)
+        _invalidate()
+    return changed
+
+
+def _reuse_values(fn: ast.FunctionDef) -> bool:
+    """N22: after `v = E` (E side-effect free and more than a name or a constant) the following simple statements of the
+    same block read v where they spell E out again, as long as neither v nor an operand of E is modified in between.
+    (Whether a value that a variable holds anyway is read from the variable or computed again is one program; the
+    substitution of temporaries, N6, is the opposite direction and wins for variables that are dead afterwards.)"""
+    changed = False
+
+    def replace_in(node: ast.AST, dump_e: str, v: str) -> bool:
+        done = False
+        for field, val in ast.iter_fields(node):
+            if isinstance(val, ast.expr):
+                if isinstance(getattr(val, 'ctx', ast.Load()), ast.Load) and ast.dump(val) == dump_e:
+                    setattr(node, field, ast.copy_location(ast.Name(id=v, ctx=ast.Load()), val))
+                    done = True
+                elif not isinstance(val, (ast.Lambda, ast.ListComp, ast.SetComp, ast.DictComp, ast.GeneratorExp)):
+                    done = replace_in(val, dump_e, v) or done
+            elif isinstance(val, list):
+                for i, x in enumerate(val):
+                    if isinstance(x, ast.expr):
+                        if isinstance(getattr(x, 'ctx', ast.Load()), ast.Load) and ast.dump(x) == dump_e:
+                            val[i] = ast.copy_location(ast.Name(id=v, ctx=ast.Load()), x)
+                            done = True
+                        elif not isinstance(x, (ast.Lambda, ast.ListComp, ast.SetComp, ast.DictComp, ast.GeneratorExp)):
+                            done = replace_in(x, dump_e, v) or done
+                    elif isinstance(x, ast.keyword):
+                        done = replace_in(x, dump_e, v) or done
+        return done
+
+    def visit(block):
+        nonlocal changed
+        for st in block:
+            if isinstance(st, (ast.FunctionDef, ast.ClassDef)):
+                continue
+            for b in _blocks_of(st):
+                visit(b)
+        for k, s_ in enumerate(block):
+            if not (isinstance(s_, ast.Assign) and len(s_.targets) == 1 and isinstance(s_.targets[0], ast.Name)):
+                continue
+            v, E = s_.targets[0].id, s_.value
+            if isinstance(E, (ast.Name, ast.Constant)) or not _is_pure_expr(E) or _size(E) < 4 or v in _names_loaded(E):
+                continue
+            watch = _names_loaded(E) | {v}
+            dump_e = ast.dump(E)
+            # statements in front that spell E out and commute with the definition: the definition moves before them
+            p_ = k
+            first_user = None
+            while p_ > 0:
+                t = block[p_ - 1]
+                if not isinstance(t, (ast.Assign, ast.AugAssign, ast.Expr)) or (mutated_names(t) & watch) \
+                        or any(isinstance(n, ast.Name) and n.id == v for n in ast.walk(t)):
+                    break
+                p_ -= 1
+                if any(ast.dump(n) == dump_e for n in ast.walk(t) if isinstance(n, ast.expr)):
+                    first_user = p_
+            if first_user is not None:
+                block.insert(first_user, block.pop(k))
+                changed = True
+                k = first_user
+            for t in block[k + 1:]:
+                if not isinstance(t, (ast.Assign, ast.AugAssign, ast.Expr, ast.Return)):
+                    break
+                target_holder = None
+                if isinstance(t, ast.Assign):
+                    # only the value is an evaluation; targets are handled when they are subscripts (their index expressions)
+                    if replace_in(ast.Expr(value=t.value), dump_e, v) if False else False:
+                        pass
+                    holder = ast.Expr(value=t.value)
+                    if ast.dump(t.value) == dump_e:
+                        t.value = ast.copy_location(ast.Name(id=v, ctx=ast.Load()), t.value)
+                        changed = True
+                    elif replace_in(t.value, dump_e, v):
+                        changed = True
+                elif isinstance(t, (ast.AugAssign, ast.Expr, ast.Return)) and t.value is not None:
+                    if ast.dump(t.value) == dump_e:
+                        t.value = ast.copy_location(ast.Name(id=v, ctx=ast.Load()), t.value)
+                        changed = True
+                    elif replace_in(t.value, dump_e, v):
+                        changed = True
+                if mutated_names(t) & watch:
+                    break
+    visit(fn.body)
+    if changed:
+        ast.fix_missing_locations(fn)
+        _invalidate()
+    return changed
+
+
+def _extend_to_augassign(fn: ast.FunctionDef) -> bool:
+    """N21: `L.extend(E)` as a statement, L a local that is bound to a list display / `list(..)` wherever it is bound,
+    is `L += E` (the list is extended in place either way)."""
+    defs: Dict[str, List[ast.AST]] = {}
+    for n in ast.walk(fn):
+        if isinstance(n, ast.Assign) and len(n.targets) == 1 and isinstance(n.targets[0], ast.Name):
+            defs.setdefault(n.targets[0].id, []).append(n.value)
+    lists = {v for v, ds in defs.items() if ds and all(
+        isinstance(d, (ast.List, ast.ListComp)) or (isinstance(d, ast.Call) and isinstance(d.func, ast.Name) and d.func.id == 'list')
+        or (isinstance(d, ast.Call) and isinstance(d.func, ast.Attribute) and _base_name(d.func.value) in LIB_MODULES) for d in ds)
+        and any(isinstance(d, (ast.List, ast.ListComp)) or (isinstance(d, ast.Call) and isinstance(d.func, ast.Name) and d.func.id == 'list')
+                for d in ds)} - _fn_params(fn)
+    # (a later re-binding to an array - `L = np.array(L)` - does not matter: `.extend` is only defined while L is a list)
+    changed = False
+
+    def visit(block):
+        nonlocal changed
+        for k, st in enumerate(block):
+            if isinstance(st, ast.Expr) and isinstance(st.value, ast.Call) and isinstance(st.value.func, ast.Attribute) \
+                    and st.value.func.attr == 'extend' and isinstance(st.value.func.value, ast.Name) and st.value.func.value.id in lists \
+                    and len(st.value.args) == 1 and not st.value.keywords and not isinstance(st.value.args[0], ast.Starred):
+                block[k] = _fix(ast.AugAssign(target=ast.Name(id=st.value.func.value.id, ctx=ast.Store()), op=ast.Add(),
+                                              value=st.value.args[0]), st)
+                changed = True
+            elif not isinstance(st, (ast.FunctionDef, ast.ClassDef)):
+                for b in _blocks_of(st):
+                    visit(b)
+    visit(fn.body)
+    if changed:
+        _invalidate()
+    return changed
+
+
+def _fuse_ifs(block: List[ast.stmt]) -> bool:
+    """N20: two `if` statements of one block with the same side-effect free test, the second of which commutes with
+    everything between them, whose test reads nothing that the first one (or what lies between) writes, become one:
+    `if c: A else: B ... if c: C else: D`  ->  `if c: A; C else: B; D ...`.  (One decision written twice - say once
+    for a value and once for the cursor that goes with it - is the same program as the decision written once.)"""
+    changed = False
+    for st in block:
+        if isinstance(st, (ast.FunctionDef, ast.ClassDef)):
+            continue
+        for b in _blocks_of(st):
+            changed = _fuse_ifs(b) or changed
+    k = 0
+    while k < len(block):
+        s = block[k]
+        if isinstance(s, ast.If) and _is_pure_expr(s.test) and not any(
+                isinstance(n, (ast.Return, ast.Break, ast.Continue, ast.Raise, ast.Yield)) for n in ast.walk(s)):
+            tnames = _names_loaded(s.test)
+            if not (mutated_names(s) & tnames):
+                j = k + 1
+                while j < len(block):
+                    t = block[j]
+                    if isinstance(t, ast.If) and ast.dump(t.test) == ast.dump(s.test) and not any(
+                            isinstance(n, (ast.Return, ast.Break, ast.Continue, ast.Raise, ast.Yield)) for n in ast.walk(t)) \
+                            and all(_commute(block[m], t) for m in range(k + 1, j)) \
+                            and not any(mutated_names(block[m]) & tnames for m in range(k + 1, j)):
+                        s.body = s.body + t.body
+                        s.orelse = s.orelse + t.orelse
+                        del block[j]
+                        _invalidate()
+                        changed = True
+                        continue
+                    if isinstance(t, (ast.FunctionDef, ast.ClassDef, ast.While, ast.For, ast.Try, ast.With, ast.Return, ast.Raise)):
+                        break
+                    j += 1
+        k += 1
+    return changed
 
 
 def _stmt_key(st: ast.stmt) -> str:
@@ -1804,15 +2144,25 @@ def _coalesce_select(fn: ast.FunctionDef) -> bool:
             total[n.id] = total.get(n.id, 0) + 1
 
     def find(block) -> bool:
-        for k in range(len(block) - 1):
-            s, nx = block[k], block[k + 1]
+        for k in range(len(block)):
+            s, nx = block[k], (block[k + 1] if k + 1 < len(block) else None)
             if isinstance(s, ast.If) and s.orelse and isinstance(nx, ast.Assign) and len(nx.targets) == 1 \
                     and isinstance(nx.targets[0], ast.Name) and isinstance(nx.value, ast.Name) and gen(nx.value.id):
                 v, w = nx.targets[0].id, nx.value.id
-                arms = [s.body, s.orelse]
-                if all(a and _plain_def(a[-1], w) for a in arms) and total.get(w, 0) == 3 \
+
+                def leaves(node: ast.If):
+                    """the arms of an if / elif / else chain"""
+                    out_ = [node.body]
+                    if len(node.orelse) == 1 and isinstance(node.orelse[0], ast.If) and node.orelse[0].orelse:
+                        out_ += leaves(node.orelse[0])
+                    else:
+                        out_.append(node.orelse)
+                    return out_
+                arms = leaves(s)
+                if all(a and _plain_def(a[-1], w) for a in arms) and total.get(w, 0) == len(arms) + 1 \
                         and not any(isinstance(n, ast.Name) and n.id == v and isinstance(n.ctx, ast.Store)
-                                    for a in arms for x in a for n in ast.walk(x)):
+                                    for a in arms for x in a for n in ast.walk(x)) and (len(arms) == 2 or not any(
+                                        isinstance(a[-1].value, ast.Name) and a[-1].value.id == v for a in arms)):
                     # (a test that reads v is fine: it is evaluated before either arm assigns)
                     for a in arms:
                         a[-1].targets[0].id = v
@@ -1975,6 +2325,7 @@ def _while_to_for(fn: ast.FunctionDef) -> bool:
                     A = ast.Call(func=ast.Name(id='max', ctx=ast.Load()),
                                  args=[ast.Name(id=j, ctx=ast.Load()), block[clamp].body[0].value], keywords=[])
                 drop = [clamp] if clamp is not None else []
+                param_counter = True
             else:
                 if init is None or clamp is not None:
                     continue
@@ -1984,6 +2335,18 @@ def _while_to_for(fn: ast.FunctionDef) -> bool:
                     continue
                 drop = [init]
             args = [A, stop] + ([] if up else [_fix(ast.UnaryOp(op=ast.USub(), operand=ast.Constant(value=1)), s)])
+            if locals().get('param_counter'):
+                # the parameter is dead behind the loop (checked above): the loop gets a variable of its own, the
+                # parameter keeps its incoming value (a loop variable that is a local of its loop on both sides of a
+                # comparison is paired whatever it is called)
+                param_counter = False
+                jj = f"{j}__k"
+                if not any(isinstance(n, ast.Name) and n.id == jj for n in ast.walk(fn)):
+                    for st_ in body:
+                        for n in ast.walk(st_):
+                            if isinstance(n, ast.Name) and n.id == j:
+                                n.id = jj
+                    j = jj
             new = ast.For(target=ast.Name(id=j, ctx=ast.Store()),
                           iter=ast.Call(func=ast.Name(id='range', ctx=ast.Load()), args=args, keywords=[]),
                           body=body or [ast.Pass()], orelse=[])
@@ -2042,6 +2405,64 @@ def _unroll_comprehension_loops(fn: ast.FunctionDef) -> bool:
 # ----------------------------------------------------------------------------------------------
 # N14: lengths of arrays that are bound once get one name each
 # ----------------------------------------------------------------------------------------------
+
+COMBINATIONS: Set[str] = set()       # names bound to itertools.combinations in the module being normalised
+
+
+def _pair_combinations(fn: ast.FunctionDef, combos: Set[str]) -> bool:
+    """N19: `combinations(X, 2)` (itertools, bound to one of the names in `combos`) over a sequence is the pair
+    comprehension that enumerates it: `[(X[a], b) for a in range(len(X)) for b in X[a + 1:]]`, and for X = range(E) the
+    pairs of positions `[(a, b) for a in range(E) for b in range(a + 1, E)]`; `list(<that>)` is the list itself."""
+    if not combos:
+        return False
+    changed = False
+    counter = [0]
+    taken = {n.id for n in ast.walk(fn) if isinstance(n, ast.Name)}
+
+    def fresh(base):
+        while True:
+            counter[0] += 1
+            nm = f"{base}__c{counter[0]}"
+            if nm not in taken:
+                taken.add(nm)
+                return nm
+
+    class T(ast.NodeTransformer):
+        def visit_FunctionDef(self, node):
+            if node is fn:
+                self.generic_visit(node)
+            return node
+
+        def visit_Call(self, node):
+            nonlocal changed
+            self.generic_visit(node)
+            f = node.func
+            nm = f.id if isinstance(f, ast.Name) else (f.attr if isinstance(f, ast.Attribute) and isinstance(f.value, ast.Name)
+                                                       and f.value.id == 'itertools' else None)
+            if nm in combos or (isinstance(f, ast.Attribute) and nm == 'combinations'):
+                if len(node.args) == 2 and not node.keywords and isinstance(node.args[1], ast.Constant) and node.args[1].value == 2:
+                    X = node.args[0]
+                    a, b = fresh('a'), fresh('b')
+                    if isinstance(X, ast.Call) and isinstance(X.func, ast.Name) and X.func.id in ('range', 'xrange') and len(X.args) == 1 \
+                            and not X.keywords and _is_pure_expr(X.args[0]):
+                        E = X.args[0]
+                        src = f"[({a}, {b}) for {a} in range({ast.unparse(E)}) for {b} in range({a} + 1, {ast.unparse(E)})]"
+                    elif isinstance(X, ast.Name):
+                        src = f"[({X.id}[{a}], {b}) for {a} in range(len({X.id})) for {b} in {X.id}[{a} + 1:]]"
+                    else:
+                        return node
+                    changed = True
+                    return ast.copy_location(ast.parse(src, mode='eval').body, node)
+            if isinstance(f, ast.Name) and f.id == 'list' and len(node.args) == 1 and not node.keywords and isinstance(node.args[0], ast.ListComp):
+                changed = True
+                return node.args[0]
+            return node
+    T().visit(fn)
+    if changed:
+        ast.fix_missing_locations(fn)
+        _invalidate()
+    return changed
+
 
 def _lengths_of_like_arrays(fn: ast.FunctionDef) -> bool:
     """N18: `len(v)` where v is bound exactly once, by `np.zeros_like(E)` / `np.empty_like(E)` / `np.ones_like(E)` with E
@@ -2360,8 +2781,9 @@ class _HelperInliner:
                         continue
                     return pre + body, None, True
                 if whole and isinstance(st, ast.Assign) and len(st.targets) == 1 and isinstance(st.targets[0], ast.Tuple) \
-                        and all(isinstance(x, ast.Name) for x in st.targets[0].elts) \
-                        and not ({x.id for x in st.targets[0].elts} & _names_loaded(cnode)):
+                        and all(isinstance(x, (ast.Name, ast.Tuple, ast.List)) and isinstance(getattr(x, 'ctx', None), ast.Store)
+                                for x in ast.walk(st.targets[0]) if isinstance(x, ast.expr) and not isinstance(x, ast.expr_context)) \
+                        and not ({x.id for x in ast.walk(st.targets[0]) if isinstance(x, ast.Name)} & _names_loaded(cnode)):
                     body = self._instantiate(helper, cnode, st.targets[0], tag)
                     if body is None:
                         cnode._no_inline = True
@@ -2590,6 +3012,10 @@ class _HelperInliner:
                     node.name = ren[node.name]
                 return self.generic_visit(node)
         mod = RN().visit(mod)
+        for n in ast.walk(mod):
+            # the marks are per instantiation: a body that is inlined again later must have its names renamed
+            if isinstance(n, ast.Name) and getattr(n, '_result', False):
+                n._result = False
         # all statements report at the call site's line (the helper body's own lines belong to another function)
         for n in ast.walk(mod):
             if hasattr(n, 'lineno'):
@@ -2621,18 +3047,19 @@ def _helper_ok(h: ast.FunctionDef, name: str, limit: int = MAX_HELPER_STMTS) -> 
 # driver
 # ----------------------------------------------------------------------------------------------
 
-def _module_helpers(tree: ast.Module, backend: bool = False) -> Dict[str, ast.FunctionDef]:
+def _module_helpers(tree: ast.Module, backend: bool = False, private_module: bool = False) -> Dict[str, ast.FunctionDef]:
     """Small loop-free module-level functions that are not units of analysis.  In the library modules only private
     ones (leading underscore); in the kernel modules (pyspike/cython/*) any small function that is not an anchor and
     is not one of the kernels themselves (those contain loops)."""
     out = {}
     for st in tree.body:
         if isinstance(st, ast.FunctionDef) and not st.name.startswith('__') \
-                and (st.name.startswith('_') or (backend and len([x for x in ast.walk(st) if isinstance(x, ast.stmt)]) <= 9)) \
+                and (st.name.startswith('_') or private_module
+                     or (backend and len([x for x in ast.walk(st) if isinstance(x, ast.stmt)]) <= 9)) \
                 and _helper_ok(st, st.name):
             # module-level helper: it must not be a unit of analysis (see ANCHORS); un-prefixed helpers of the kernel
             # modules are loop-free (the kernels themselves are the functions with loops)
-            if not st.name.startswith('_') and any(isinstance(n, (ast.For, ast.While)) for n in ast.walk(st)):
+            if not st.name.startswith('_') and not private_module and any(isinstance(n, (ast.For, ast.While)) for n in ast.walk(st)):
                 continue
             out[st.name] = st
     return out
@@ -2730,6 +3157,8 @@ def normalize_function(fn: ast.FunctionDef, module_helpers: Dict[str, ast.Functi
 
     inl = _HelperInliner(None, None)
     for _ in range(4):
+        if fn.name in ANCHORS:
+            break               # a unit of analysis keeps its calls: the rules anchored on it follow them themselves
         ch = inl.inline_expression_helpers(fn, nested, resolver)
         ch = inl.inline_in(fn, nested, resolver) or ch
         if not ch:
@@ -2766,17 +3195,28 @@ def normalize_function(fn: ast.FunctionDef, module_helpers: Dict[str, ast.Functi
             _LenTests().visit(st)
             _SortMinMaxArgs().visit(st)
         _invalidate()
+        _split_chained_assign(fn)
+        _sink_update_into_defs(fn)
+        _extend_to_augassign(fn)
+        _fuse_ifs(fn.body)
         _order_block(fn.body)
         _invalidate()
         fn.body = _branch_motion(fn.body)
         _invalidate()
         _while_to_for(fn)
+        _pair_combinations(fn, COMBINATIONS)
         _unroll_comprehension_loops(fn)
         _invalidate()
         for _ in range(8):
-            ch = _inline_temps(fn, True)
+            # names introduced by inlining are first identified with the caller's names they are copied into (so that a
+            # value the caller keeps in a variable stays in that variable), only then are temporaries substituted
+            ch = False
             while _coalesce_copies(fn) or _coalesce_generated(fn) or _coalesce_select(fn):
                 ch = True
+            ch = _inline_temps(fn, True) or ch
+            while _coalesce_copies(fn) or _coalesce_generated(fn) or _coalesce_select(fn):
+                ch = True
+            ch = _reuse_values(fn) or ch
             if not ch:
                 ch = _inline_temps(fn, False)   # copies of generated names that coalescing could not remove
             ch = _forward_tuple_temps(fn) or ch
@@ -2828,6 +3268,10 @@ def normalize_module(tree: ast.Module, imported_helpers: Optional[Dict[str, ast.
                      backend: bool = False) -> ast.Module:
     helpers = dict(imported_helpers or {})
     helpers.update(_module_helpers(tree, backend))
+    COMBINATIONS.clear()
+    for n in ast.walk(tree):
+        if isinstance(n, ast.ImportFrom) and n.module == 'itertools':
+            COMBINATIONS.update(a.asname or a.name for a in n.names if a.name == 'combinations')
 
     def private_methods(cls: ast.ClassDef) -> Dict[str, ast.FunctionDef]:
         out = {}
